@@ -603,6 +603,64 @@ def sweep_cromermann(pt, acc, path):
     return cells
 
 
+def sweep_cromermann_calls(pt, acc, path):
+    """The documented call interface of the Cromer-Mann module, complete over labels x charge arguments: for every
+    entry label of f0_WaasKirf.dat that names an element or ion ('Ca', 'Ca2+', 'O1-', and the short spellings 'Na+',
+    'Cl-' of the singly charged ones) and every *charge* argument in {not given, None, 0, every charge for which the
+    element has an entry}, fxrayatq(label, Q, charge) and fxrayatstol(label, Q/4pi, charge) - charge by keyword and by
+    position - evaluate the closed form of the entry of (element of the label, charge if given else the label's own):
+    'charge overrides any valence suffixes', 0 included.  A target without an entry is not judged."""
+    from periodictable import cromermann
+    parts = rt.cromer_mann_symbol_parts
+    by_atom = {}
+    for e in rt.cromer_mann_entries():
+        p = parts(e["symbol"])
+        if p is not None:
+            by_atom[p] = e
+    charges = {}
+    for (sym, q) in by_atom:
+        charges.setdefault(sym, set()).add(q)
+    cells = 0
+    for (sym, q0), e in sorted(by_atom.items()):
+        labels = [e["symbol"]]
+        if abs(q0) == 1:
+            labels.append(sym + ("+" if q0 > 0 else "-"))
+        for L in labels:
+            for c in ["<absent>", None, 0] + sorted(charges[sym] - {0}):
+                target = (sym, q0 if c in ("<absent>", None) else c)
+                ent = by_atom.get(target)
+                if ent is None:
+                    acc.count("cromermann_calls_not_judged(no entry for the charge asked)")
+                    continue
+                coef = (ent["a"], ent["c"], ent["b"])
+                ways = []
+                if c == "<absent>":
+                    ways = [("fxrayatq(%r, Q)" % L, lambda Q: cromermann.fxrayatq(L, Q)),
+                            ("fxrayatstol(%r, Q/(4*pi))" % L, lambda Q: cromermann.fxrayatstol(L, Q / (4 * math.pi)))]
+                else:
+                    ways = [("fxrayatq(%r, Q, charge=%r)" % (L, c), lambda Q: cromermann.fxrayatq(L, Q, charge=c)),
+                            ("fxrayatq(%r, Q, %r)" % (L, c), lambda Q: cromermann.fxrayatq(L, Q, c)),
+                            ("fxrayatstol(%r, Q/(4*pi), %r)" % (L, c), lambda Q: cromermann.fxrayatstol(L, Q / (4 * math.pi), c))]
+                for text, call in ways:
+                    for Q in QGRID:
+                        cells += 1
+                        w, scale = f0_closed(coef, Q), f0_scale(coef, Q)
+                        code = ("from periodictable import cromermann\nfrom math import pi\nQ = %r\nprint(cromermann.%s)"
+                                "   # entry %r of f0_WaasKirf.dat" % (Q, text, ent["symbol"]))
+                        rule = "cromermann-call-charge-%s" % ("not-given" if c in ("<absent>", None) else "zero" if c == 0 else "given")
+                        try:
+                            v = float(call(Q))
+                        except Exception as ex:
+                            acc.violation(rule + "-raises:public", dict(path=list(path), table="public", key=[L, str(c), text, Q], rule=rule),
+                                          w, "%s: %s" % (type(ex).__name__, ex), standalone=code)
+                            break
+                        if not (abs(v - w) <= 1e-9 * scale):
+                            acc.violation(rule + ":public", dict(path=list(path), table="public", key=[L, str(c), text, Q], rule=rule),
+                                          w, v, standalone=code)
+                            break
+    return cells
+
+
 def run_path(args):
     idx, path = args
     acc = Acc()
@@ -628,6 +686,7 @@ def run_path(args):
         acc.transitions += cells
         acc.outcome("table:" + label)
     cells = sweep_cromermann(pt, acc, path)
+    cells += sweep_cromermann_calls(pt, acc, path)
     acc.states += cells; acc.nontrivial += cells; acc.evaluations += cells; acc.transitions += cells
     acc.sample(dict(path=list(path), tables=[l for l, _ in live]))
     acc.count("configurations")
